@@ -41,12 +41,17 @@ TabV5Of(r) == [dfmt |-> r.dfmt, dirs |-> [k \in 1..Len(r.dirs) |-> [j \in 1..Len
 HOf(r) == [ver |-> r.ver, fmt |-> r.fmt, asz |-> r.asz, le |-> r.le, mil |-> r.mil, maxops |-> r.maxops,
            dis |-> r.dis, lbase |-> r.lbase, lrange |-> r.lrange, obase |-> r.obase, oplens |-> r.oplens]
 
-Header == IsEv("Header") /\ LET r == Rec[l] IN \E h \in {HOf(r)} :
+(* state predicates are wrapped as `P = TRUE` so that TLC evaluates them as  *)
+(* expressions (a disjunction at the level of an action is split into       *)
+(* separate successor computations)                                        *)
+HeaderOk(r, h) ==
     /\ h.ver \in 2..5 /\ h.asz \in {1, 2, 4, 8} /\ h.mil > 0 /\ h.maxops > 0 /\ h.lrange > 0 /\ h.obase > 0
     /\ Len(h.oplens) = h.obase - 1 /\ (h.ver < 4 => h.maxops = 1)
     /\ LET il == IF h.fmt = 64 THEN 12 ELSE 4
            T  == IF h.ver <= 4 THEN TabV4Of(r) ELSE TabV5Of(r) IN
        SubSeq(r.raw, il + 1, Len(r.raw)) = EncHeaderBody(h, T)
+Header == IsEv("Header") /\ LET r == Rec[l] IN \E h \in {HOf(r)} :
+    /\ HeaderOk(r, h) = TRUE
     /\ H' = h /\ S' = InitRun(h) /\ L' = <<>>
 
 Pub(r) == [addr |-> r.addr, opi |-> r.opi, file |-> r.file, line |-> r.line, col |-> r.col, stmt |-> r.stmt,
@@ -66,9 +71,7 @@ ExecErr == IsEv("ExecErr") /\ S.end = "run" /\ LET r == Rec[l] IN
     /\ ~Exec(H, S.r, r.ins).ok
     /\ S' = [S EXCEPT !.end = "err"] /\ UNCHANGED <<H, L>>
 
-End == IsEv("End") /\ LET r == Rec[l] IN
-    \E F \in {IF S.end = "run" THEN [S EXCEPT !.end = "done"] ELSE S} :
-    \E RR \in {ResumedRuns(H, [list |-> L, ok |-> TRUE], F)} :
+EndOk(r, F, RR) ==
     /\ r.end = F.end /\ r.rows = F.rows
     \* any-input clause on the observation; the as-coded model explains a
     \* non-monotone observation only for `merged` runs, which are flagged
@@ -83,6 +86,10 @@ End == IsEv("End") /\ LET r == Rec[l] IN
                  /\ InRange(r.seqs.list[k].rows, H.asz)
                  /\ (Monotone(r.seqs.list[k].rows) \/ F.merged)
        ELSE ~r.seqs.ok
+End == IsEv("End") /\ LET r == Rec[l] IN
+    \E F \in {IF S.end = "run" THEN [S EXCEPT !.end = "done"] ELSE S} :
+    \E RR \in {ResumedRuns(H, [list |-> L, ok |-> TRUE], F)} :
+    /\ EndOk(r, F, RR) = TRUE
     /\ S' = F /\ UNCHANGED <<H, L>>
 
 BadHeader == IsEv("BadHeader") /\ UNCHANGED <<H, S, L>>
